@@ -1,6 +1,8 @@
 QUICK = [("sema", "s1t2", 2, 1, 0), ("sema", "s1t3", 2, 1, 0), ("sema", "s2t2", 2, 1, 0), ("notify", "n2", 3, 1, 0), ("notify", "n3", 2, 1, 0),
-         ("sync", "mutex", 3, 1, 0), ("sync", "rwmutex", 3, 1, 0), ("sync", "waitgroup", 3, 1, 0), ("sync", "once", 3, 1, 0), ("sync", "cond", 3, 1, 0)]
+         ("sync", "mutex", 3, 1, 0), ("sync", "rwmutex", 3, 1, 0), ("sync", "waitgroup", 3, 1, 0), ("sync", "once", 3, 1, 0), ("sync", "cond", 3, 1, 0),
+         ("value", "v2", 3, 0, 0), ("value", "v3", 3, 0, 0)]
 THOROUGH = [("sema", "s1t2", 4, 1, 0), ("sema", "s1t3", 3, 1, 0), ("sema", "s2t2", 3, 1, 0), ("sema", "s2t3", 2, 1, 0), ("sema", "s1t3x", 2, 1, 300000),
             ("sema", "s1t4", 3, 1, 0), ("notify", "n2", 4, 2, 0), ("notify", "n3", 3, 1, 0), ("notify", "n4", 2, 1, 300000),
             ("sync", "mutex", 4, 1, 0), ("sync", "rwmutex", 4, 1, 0), ("sync", "waitgroup", 3, 1, 0), ("sync", "once", 4, 1, 0), ("sync", "cond", 3, 1, 0),
-            ("sync", "mutexx", 3, 1, 0), ("sync", "rwmutexx", 3, 1, 0), ("sync", "waitgroupx", 2, 1, 0), ("sync", "oncex", 3, 1, 0), ("sync", "condx", 2, 1, 0)]
+            ("sync", "mutexx", 3, 1, 0), ("sync", "rwmutexx", 3, 1, 0), ("sync", "waitgroupx", 2, 1, 0), ("sync", "oncex", 3, 1, 0), ("sync", "condx", 2, 1, 0),
+            ("value", "v2", 5, 0, 0), ("value", "v3", 4, 0, 0), ("value", "v2x", 3, 0, 0), ("value", "v3x", 3, 0, 0)]
